@@ -16,7 +16,7 @@ use nom::{
     branch::alt,
     bytes::complete::tag,
     character::complete::{char, one_of, space1},
-    combinator::{eof, map, value},
+    combinator::{eof, map, value, verify},
     multi::many1,
     sequence::{pair, preceded, tuple},
     IResult,
@@ -56,12 +56,19 @@ fn fen_empty_squares(input: &str) -> IResult<&str, Vec<Option<Piece>>> {
 }
 
 fn fen_line(input: &str) -> IResult<&str, FenRank> {
-    let (input, squares) = many1(alt((
-        map(fen_piece, |p| vec![Some(p); 1]),
-        fen_empty_squares,
-    )))(input)?;
+    // Each rank must describe exactly eight squares
+    let (input, squares) = verify(
+        map(
+            many1(alt((
+                map(fen_piece, |p| vec![Some(p); 1]),
+                fen_empty_squares,
+            ))),
+            |squares| squares.concat(),
+        ),
+        |squares: &Vec<Option<Piece>>| squares.len() == File::N,
+    )(input)?;
 
-    Ok((input, FenRank(squares.concat())))
+    Ok((input, FenRank(squares)))
 }
 
 fn fen_position(input: &str) -> IResult<&str, Board> {
@@ -204,7 +211,8 @@ fn fen_halfmove_clock(input: &str) -> IResult<&str, u32> {
 }
 
 fn fen_fullmove_number(input: &str) -> IResult<&str, u32> {
-    nom::character::complete::u32(input)
+    // The number of plies derived from the move number must fit in a u32
+    verify(nom::character::complete::u32, |n| *n <= u32::MAX / 2 + 1)(input)
 }
 
 fn fen_parser(input: &str) -> IResult<&str, Game> {
@@ -241,7 +249,8 @@ fn fen_parser(input: &str) -> IResult<&str, Game> {
 
 #[inline(always)]
 fn plies_from_fullmove_number(fullmove_number: u32, player: Player) -> u32 {
-    (fullmove_number - 1) * 2 + u32::from(player == Player::Black)
+    // Some tools write a move number of 0; treat it as the first move
+    fullmove_number.saturating_sub(1) * 2 + u32::from(player == Player::Black)
 }
 
 pub fn parse(input: &str) -> Result<Game, String> {
